@@ -365,7 +365,7 @@ let () = register "session" (fun args ->
                 | "forget_local" -> RForgetLocal (sym payload)
                 | _ -> raise (Unsup ("request kind " ^ k))) in
            let rs = List.map conv_req reqs in
-           let wfl = wf_prog p && globals_ok p && List.for_all wf_request rs in
+           let wfl = wf_prog p && globals_ok p && globals_noint p && List.for_all wf_request rs in
            let (st, resps) = run_history fixes fuel p fresh rs in
            String.concat "|" (List.map show_response resps) ^ "\t" ^ (if wfl then "wf1" else "wf0") ^ "\t" ^ frames_summary st
          end
